@@ -19,7 +19,7 @@ int vfault_to_ascii_8z(const char *in, char **out, int flags) {
     return *out ? 0 : -100;
 }
 
-#define NSHAPES 16
+#define NSHAPES 22
 static char *shape(int k, size_t n) {
     char *s = malloc(n + 16); size_t i = 0;
     memset(s, 0, n + 16);
@@ -40,6 +40,13 @@ static char *shape(int k, size_t n) {
     case 13: for (i = 0; i < n; i++) s[i] = (i % 2) ? '.' : '1'; break;
     case 14: s[0] = '"'; for (i = 1; i + 1 < n; i++) s[i] = "\r\n "[(i - 1) % 3]; if (n > 1) s[n - 1] = '"'; break;
     case 15: for (i = 0; i < n; i++) s[i] = (i % 64 == 63) ? '.' : 'b'; break;
+    /* adversaries for the span sets of strspn/strchr-style helpers */
+    case 16: for (i = 0; i < n; i++) s[i] = (i % 2) ? '.' : '0'; break;
+    case 17: memset(s, '0', n); break;
+    case 18: for (i = 0; i < n; i++) s[i] = "0123456789abcdefABCDEF"[i % 22]; break;
+    case 19: for (i = 0; i < n; i++) s[i] = (i % 4 == 3) ? '.' : '0'; break;
+    case 20: for (i = 0; i < n; i++) s[i] = (i % 5 == 4) ? ':' : 'f'; break;
+    case 21: strcpy(s, "a@["); for (i = 3; i + 1 < n; i++) s[i] = (i % 2) ? '.' : '0'; if (n > 4) s[n - 1] = ']'; break;
     }
     for (i = 0; i < n; i++) if (s[i] == 0) s[i] = 'z';
     s[n] = 0;
